@@ -86,6 +86,9 @@ func ScramSHA256PlusAuth(username, password string, tlsConnState *tls.Connection
 
 // Start initializes the SCRAM authentication process and returns the selected algorithm, nil data, and no error.
 func (a *scramAuth) Start(_ *ServerInfo) (string, []byte, error) {
+	// An Auth value may be used for more than one connection. Nothing of an earlier exchange must
+	// survive into a new one, otherwise a recorded server signature could be replayed.
+	a.reset()
 	return a.algorithm, nil, nil
 }
 
